@@ -65,7 +65,7 @@ class C14(object):
                 "use_key": rng.random() < 0.75, "varargs": rng.random() < 0.3, "key_raises_on": rng.choice([None, None, None, 0, 1]),
                 "competitors": rng.randint(0, 3), "prio": gen.gen_prio(rng, 3),
                 "k_fail": rng.randint(0, 6), "max_tries": rng.randint(1, 6), "listed": rng.random() < 0.75,
-                "multi_exc": rng.random() < 0.3}
+                "multi_exc": rng.random() < 0.3, "concurrent": rng.choice([1, 1, 2, 3])}
         return case
 
     def sample(self, case, r):
@@ -240,6 +240,9 @@ class C14(object):
 
         class Unlisted(Exception):
             pass
+        ninv = int(case.get("concurrent", 1))
+        if ninv > 1:
+            return self._run_retry_concurrent(B, case, out, probes, ninv)
         calls = [0]
         excs = []
 
@@ -282,6 +285,58 @@ class C14(object):
             return
         if clock.slept - slept0 != exp_sleeps:
             out.append(("retry-sleep", "aretry slept %d times on the simulated clock, expected %d" % (clock.slept - slept0, exp_sleeps)))
+
+
+    def _run_retry_concurrent(self, B, case, out, probes, ninv):
+        """Several invocations of one retried function in flight at the same time (yielded
+        together, bodies blocking on requests): each has its own budget of max_tries."""
+        mt = max(1, int(case.get("max_tries", 1)))
+        kfs = [(int(case.get("k_fail", 0)) + 2 * i) % 5 for i in range(ninv)]
+
+        class Listed(Exception):
+            pass
+        calls = {}
+        nitem = [0]
+
+        @A.asynq()
+        def body(who):
+            calls[who] = calls.get(who, 0) + 1
+            n = calls[who]
+            nitem[0] += 1
+            yield real.SimItem(B.current[who % 2], "rc.i%d" % nitem[0], "k", B)
+            if n <= kfs[who]:
+                raise Listed("fail#%d of invocation %d" % (n, who))
+            return ("ok", who, n)
+        wrapped = T.aretry(Listed, max_tries=mt, sleep=0.01)(body)
+
+        @A.asynq()
+        def one(who):
+            try:
+                return ("V", (yield wrapped.asynq(who)))
+            except Listed as e:
+                return ("E", str(e))
+
+        @A.asynq()
+        def root():
+            return (yield [one.asynq(i) for i in range(ninv)])
+        try:
+            got = root()
+        except BaseException as e:
+            out.append(("retry-outcome", "concurrent aretry invocations raised %s: %s" % (type(e).__name__, str(e)[:100])))
+            return
+        probes["retry_concurrent_invocations"] = ninv
+        probes["retry_failures"] = sum(min(k, mt) for k in kfs)
+        for who in range(ninv):
+            k = kfs[who]
+            exp_calls = min(k + 1, mt)
+            exp = ("E", "fail#%d of invocation %d" % (mt, who)) if k >= mt else ("V", ("ok", who, k + 1))
+            if calls.get(who, 0) != exp_calls:
+                out.append(("retry-count", "invocation %d of %d concurrent ones (max_tries=%d, its first %d attempts fail) ran its body %d times, expected %d"
+                            % (who, ninv, mt, k, calls.get(who, 0), exp_calls)))
+                return
+            if got[who] != exp:
+                out.append(("retry-outcome", "invocation %d of %d concurrent ones gave %r, expected %r" % (who, ninv, got[who], exp)))
+                return
 
 
 PROP = C14()
